@@ -52,12 +52,18 @@ fn parse_with(vm: &pest_vm::Vm, rule: &str, input: &str, limit: usize) -> (Res, 
     (r.unwrap_or(Res::Panic), calls, refused)
 }
 
-const HUGE: usize = usize::MAX / 2;
+/// "No limit" for the reference run: far beyond the 400 calls a swept case may need, but finite, so that a
+/// grammar that loops on the stack alone (the validator cannot reject those) ends instead of exhausting memory.
+const HUGE: usize = 200_000;
 
 fn check_case(rep: &mut Report, text: &str, optimized: &[pest_meta::optimizer::OptimizedRule], vm: &pest_vm::Vm, rule: &str, input: &str, max_n: usize) {
     let (r_inf, n, _) = parse_with(vm, rule, input, HUGE);
     if matches!(r_inf, Res::Panic) {
         rep.count("skipped_unlimited_parse_panics");
+        return;
+    }
+    if matches!(r_inf, Res::Limit) {
+        rep.count("skipped_too_many_calls");
         return;
     }
     if n > max_n {
